@@ -269,7 +269,15 @@ class StmtMixin:
         pass
 
     def x_Assign(self, s):
-        v = self.eval(s.value)
+        self._expected_ty = None
+        if isinstance(s.value, ast.ListComp) and len(s.targets) == 1 and isinstance(s.targets[0], ast.Name):
+            ct = getattr(self.frames[-1], "contract", None)
+            if ct is not None and s.targets[0].id in ct.locals:
+                self._expected_ty = self.ptype(ct.locals[s.targets[0].id])      # declared type of the list being built
+        try:
+            v = self.eval(s.value)
+        finally:
+            self._expected_ty = None
         for t in s.targets:
             self.bind(t, v)
 
